@@ -11,9 +11,15 @@ from props.c01 import srcfacts_values
 
 PID = 'C17'
 MANIFEST = dict(
-    text='TBD',
-    design='5 C17', technique='Coq invariant proofs over a micro-step transition system of the logger/sink registries and the removal protocol + source-fact translator (clang AST) + extracted-model/implementation differential correspondence with an independent property monitor')
-TRUSTED = []
+    text='Machine-checked (Coq) over an executable model of the logger and sink registries and of the removal protocol (LoggerManager name-sorted vector with create_or_get / get / remove_logger / cleanup_invalidated_loggers, SinkManager weak table with create_or_get_sink / cleanup_unused_sinks, the LoggerRemovalRequest of remove_logger_blocking travelling through the caller\'s queue, the backend\'s _logger_removal_flags, per-thread FIFO queues and transit buffers, sink use counts). A schedule is a list of micro-steps (frontend calls of any thread; backend: read one record, process one event, enter / one iteration / leave the clean-up loop) in any order, so every theorem quantifies over every interleaving, any number of remove/re-create cycles and every sharing pattern. Proved for the configuration read from the source: a logger is erased only when invalid and only in a state where every queue and transit buffer is empty and everything committed has been processed, and every statement committed through an erased logger was written to each sink the logger was created with (C17_erase_step_drained, C17_delivered_before_free, C17_thread_order); every queued or buffered record refers to a logger still registered and, under the documented contract "a logger is not used after its removal", no step dereferences a freed logger or writes to a destroyed sink (C17_refs_present, C17_no_dangling); a sink\'s use count equals user handles + registered loggers holding it, it is destroyed once, exactly when nothing references it (C17_sink_lifetime, C17_destroy_step); a removal flag is stored only at the end of the clean-up, after the erase and the pruning of expired sink entries, the blocked caller is released only then, and create_or_get of the freed name builds a new object over the given sinks (C17_flag_after_erase, C17_blocking_returns_after, C17_unblock_step, C17_create_after); the logger vector stays strictly name-sorted, the sink vector sorted with at most the first entry of a name alive, lookups find a name whenever present, create_or_get / get are idempotent (C17_reg_sorted_unique, C17_create_get_idem, C17_get_idem, C17_get_removed_none, C17_create_sink_idem); Spinlock in a release/acquire view model: mutual exclusion and happens-before between critical sections for every schedule (C17_spin_mutex). Each protocol ingredient has a refutation (vm_compute witness) of the variant without it: guard without transit buffers / without queues / not re-evaluated per logger, flag stored before the erase, no pruning, get without validity test, re-creation while a non-blocking removal is pending (documented misuse), relaxed spinlock orders. Tie: the guard, the per-logger re-check, the order erase -> cleanup_unused_sinks -> flag store (and that the flag is stored nowhere else), request-before-invalidation, ownership types, memory orders and 19 method skeletons are read from /repo by clang on every run (TieC17.v); the extracted model is run against the real Frontend / LoggerManager / SinkManager / ManualBackendWorker (ASan+UBSan build, frontend calls injected at the QUILL_VERIF yield points inside a poll) on generated histories, with a monitor evaluating the property directly on the implementation\'s API trace.',
+    design='5 C17', technique='Coq invariant proofs over a micro-step transition system of the logger/sink registries and the removal protocol (+ release/acquire view model of the spinlock) + source-fact translator (clang AST) + extracted-model/implementation differential correspondence with an independent property monitor, ASan')
+TRUSTED = [
+    'Coq 8.16.1 kernel (vm_compute for witnesses; no native_compute); every theorem Closed under the global context',
+    'tools/srcfacts.py over clang 14 JSON AST (19 method skeletons, 10 order/presence/type facts, 7 memory orders)',
+    'extraction: ExtrOcamlBasic only; extract/driver.ml; harness/lg.cpp (interposed clock_gettime/nanosleep, one OS thread running at a time, object identities carried in the logger pattern and a sink constructor argument), g++ -fsanitize=address,undefined -DNDEBUG',
+    'modelled rather than verified: the registry methods are re-stated in Gallina (Registry/RegModel.v); queues and transit buffers are FIFO lists (byte level: C01/C02), unbounded; std::lower_bound is a linear scan for the first element not below the key (equal on sorted vectors, sortedness is proved); shared_ptr use counts are a multiset of owners; frontend calls under the LoggerManager spinlock are atomic steps, disabled while the backend holds the lock in the clean-up loop; remove_logger = mark_invalid + flag store in one step; thread contexts are fixed for a case; the release/acquire collapse of C++11 to views for the spinlock (as for C01); CsvWriter / FileSink destructors (file close) are the sink destructor event',
+    'premise visible in C17_no_dangling: the documented contract (LoggerImpl::log_statement asserts it; Frontend.h: "After calling this function, no thread should use this logger", "you should not attempt to create a new logger with the same name" while an asynchronous removal is pending)',
+]
 
 NTMAX = 3
 ARITY = {1: 3, 2: 1, 3: 3, 14: 2, 5: 3, 6: 4, 7: 2, 8: 3, 9: 2, 10: 1, 15: 1}   # 4 and 11 have a length field
@@ -476,6 +482,141 @@ def flags_from(facts):
     b = lambda k: '0' if facts.get(k) == 'false' else '1'
     return [b('c17_guard_queues'), b('c17_guard_tbufs'), b('c17_recheck_per_logger'), b('c17_flag_after_erase_and_prune'),
             b('c17_prune_after_erase'), b('c17_get_checks_valid')]
+
+
+WITNESS = [
+    ('c17_guard_tbufs', 'the clean-up guard no longer looks at the transit buffers', 'cfg_no_tb', 'w_no_tb', 'C17_guard_tbuf_refuted'),
+    ('c17_guard_queues', 'the clean-up guard no longer looks at every frontend queue', 'cfg_no_q', 'w_no_q', 'C17_guard_queue_refuted'),
+    ('c17_recheck_per_logger', 'the guard is not evaluated again for each invalid logger (or is not the backend emptiness check)', 'cfg_no_recheck', 'w_no_recheck', 'C17_recheck_refuted'),
+    ('c17_flag_after_erase_and_prune', 'the removal flag is not stored after erase + cleanup_unused_sinks only', 'cfg_flag_early', 'w_flag_early', 'C17_flag_before_erase_refuted'),
+    ('c17_prune_after_erase', 'cleanup_unused_sinks does not run after loggers were erased', 'cfg_no_prune', 'w_no_prune', 'C17_no_prune_refuted'),
+    ('c17_get_checks_valid', 'get_logger does not test validity', 'cfg_get_any', '[FCreateSink 0 0; FCreate 0 0 [0]; FRemove 0; FGet 1 0]', 'C17_get_invalid_refuted'),
+    ('c17_spin_exchange', 'Spinlock::lock exchange is not an acquire', '{| x_acq := false; u_rel := true |}', 'sp_trace', 'C17_spin_relaxed_exchange_refuted'),
+    ('c17_spin_unlock_store', 'Spinlock::unlock is not a release store', '{| x_acq := true; u_rel := false |}', 'sp_trace', 'C17_spin_relaxed_unlock_refuted'),
+]
+FACT_KEYS = ('c17_guard_queues', 'c17_guard_tbufs', 'c17_recheck_per_logger', 'c17_flag_after_erase_and_prune', 'c17_prune_after_erase',
+             'c17_get_checks_valid', 'c17_request_before_invalidate', 'c17_sink_table_weak', 'c17_logger_shares_sinks', 'c17_registry_owns_loggers',
+             'c17_spin_spin_load', 'c17_spin_exchange', 'c17_spin_unlock_store', 'c17_valid_store', 'c17_valid_load', 'c17_inv_flag_set', 'c17_inv_flag_load')
+
+
+def with_flags(case, fl):
+    t = case.split(); t[1:7] = [str(x) for x in fl]; return ' '.join(t)
+
+
+def known_match_for(ck):
+    """open findings of this property: signature = {'kind': ..., 'monitor_re': regex on the monitor text, 'case_re': regex on the case}"""
+    opens = ck.known_for()
+    def km(case, impl_line, mf):
+        for f in opens:
+            sig = f.get('signature', {})
+            if sig.get('monitor_re') and re.search(sig['monitor_re'], mf or '') and re.search(sig.get('case_re', ''), case):
+                return '%s: %s' % (f.get('id'), f.get('what'))
+        return None
+    return km if opens else None
+
+
+def coverage(cases, impl):
+    h = {}; b = dict(loggers_freed=0, blocking_returned=0, sinks_destroyed=0, names_recreated=0, cases_with_injection=0, shared_sink_cases=0, writes=0)
+    for c, i in zip(cases, impl):
+        try:
+            _, _, ops = parse(c); ev = events(i)
+        except Exception:
+            continue
+        def cnt(o):
+            h[o[0]] = h.get(o[0], 0) + 1
+            if o[0] == 'poll':
+                for _, xs in o[1]:
+                    for x in xs: cnt(x)
+            if o[0] == 'iffree':
+                for x in o[2]: cnt(x)
+        for o in ops: cnt(o)
+        if any(o[0] == 'poll' and o[1] for o in ops): b['cases_with_injection'] += 1
+        counts = [e[1] for e in ev if e[0] == 10]
+        b['loggers_freed'] += sum(max(0, x - y) for x, y in zip(counts, counts[1:]))
+        b['blocking_returned'] += sum(1 for e in ev if e[0] == 9 and e[2] == 1)
+        b['sinks_destroyed'] += sum(1 for e in ev if e[0] == 2)
+        b['writes'] += sum(1 for e in ev if e[0] == 1)
+        created = {}
+        for e in ev:
+            if e[0] == 4:
+                if e[2] in created and created[e[2]] != e[3]: b['names_recreated'] += 1
+                created[e[2]] = e[3]
+        sinks = [set(e[4]) for e in ev if e[0] == 4 and e[4]]
+        if any(a & b2 for k2, a in enumerate(sinks) for b2 in sinks[k2 + 1:]): b['shared_sink_cases'] += 1
+    return h, b
+
+
+def run(tier):
+    ck = Check(PID, tier)
+    broken = standard_proof_phase(ck, 'Properties_C17')
+    facts = srcfacts_values()
+    ck.tie.append({'T-src facts': {k: facts.get(k) for k in FACT_KEYS}})
+    mexe, err = ck.build_modelrun()
+    if not mexe:
+        ck.violation('no-failing-input-found', 'model extraction/build failed: ' + err[-400:]); return ck.finish(trusted=TRUSTED)
+    iexe, err = ck.build_harness('lg', ['lg.cpp'], flags=['-DNDEBUG', '-ldl'])
+    if not iexe:
+        ck.violation('no-failing-input-found', 'harness lg.cpp does not compile against /repo: ' + err[-600:]); return ck.finish(trusted=TRUSTED)
+    fl = flags_from(facts)
+    n = 2500 if tier == 'quick' else 60000
+    first = [with_flags(c, fl) for c in corpus()] + [line(fl, nt, b) for nt, b in gen_scenarios(ck.rng)]
+    cases = first + [line(fl, *gen_random(ck.rng)) for _ in range(n)]
+    il = ck.run_impl(iexe, first, per_case_timeout=20)
+    nfail = sum(1 for l in il if l.startswith(('CRASH', 'HANG', 'NOOUTPUT')))
+    if nfail >= 5:
+        ck.notes.append('implementation crashes/hangs on %d of the %d corpus and scenario cases; generated cases skipped' % (nfail, len(first)))
+        cases = first
+    else:
+        il = il + ck.run_impl(iexe, cases[len(first):], timeout=900, per_case_timeout=20, max_fail=25)
+    ml = ck.run_model(mexe, cases)
+
+    def shrink(case, mode):
+        flags, nt, ops = parse(case); body, drained = split_suffix(nt, ops)
+        def fails(b):
+            c = line(flags, nt, b, with_suffix=drained)
+            i = ck.run_impl(iexe, [c], per_case_timeout=20)[0]
+            if mode == 'monitor': return monitor(c, i) is not None
+            return ck.run_model(mexe, [c])[0] != i
+        return line(flags, nt, ddmin(body, fails, max_tests=150), with_suffix=drained)
+
+    def mon(case, impl_line):
+        if impl_line == 'NOTRUN': return None
+        return monitor(case, impl_line)
+    dis, monf = correspond(ck, 'M-REG vs Frontend/LoggerManager/SinkManager/ManualBackendWorker', cases, ml, il, monitor=mon, shrink=shrink,
+                           known_match=known_match_for(ck))
+    if broken and not ck.violations:
+        for key, what, cfgname, trace, thm in WITNESS:
+            v = facts.get(key)
+            bad = (v == 'false') or (key == 'c17_spin_exchange' and v not in ('Acq', 'AcqRel', 'Sc')) or (key == 'c17_spin_unlock_store' and v not in ('Rel', 'AcqRel', 'Sc'))
+            if v is not None and bad:
+                ck.violation('model-witness', what + ' (SrcFacts.%s = %s); broken: %s' % (key, v, '; '.join(broken)[:300]),
+                             case={'model': 'Registry.RegModel.mrun ' + cfgname + ' (st0 1)' if not key.startswith('c17_spin') else 'Registry.SpinModel.srun ' + cfgname + ' (sp0 2)', 'ops': trace},
+                             expected='the C17 clause of the good configuration', observed='violated in the model of the edited source (Theorem %s, checked by vm_compute)' % thm)
+                break
+        else:
+            ck.violation('no-failing-input-found', '; '.join(broken))
+    res = dict(zip(cases, il))
+    nt_ = len(set(c for c in cases if nontrivial(c, res[c]))) if not monf else 0
+    hist, bnd = coverage(cases, il)
+    return ck.finish(trusted=TRUSTED, samples=[cases[0][:400], cases[len(first) + 1][:400] if len(cases) > len(first) + 1 else cases[-1][:400]],
+                     rule='histories of create_or_get_sink / handle reset / create_or_get_logger / get_logger / log (1-3 threads) / remove_logger / remove_logger_blocking / wait / counts / poll_one with frontend calls injected at yield points 1, 3.k, 5, 6, 8 on the real Frontend + ManualBackendWorker; structured scenarios (remove right after the last log, older statements of another thread still queued, 1-20 remove/re-create cycles with alternating sinks, every sharing pattern of 3 sinks over 3 loggers, a statement committed inside the poll that would free the logger, handle dropped before/after, expired entries, idempotence in every insertion order, two blocking removals in flight) plus seeded random in-contract histories; every case ends with a drain; non-trivial = a logger object was freed after statements were written and a removal was requested; distinct by case text',
+                     evaluations=len(cases), distinct_nontrivial=nt_, traces=len(cases) - len(dis) - len(monf),
+                     extra_cov={'disagreements': len(dis), 'monitor_failures': len(monf), 'corpus_cases': len(corpus()), 'scenario_cases': len(first) - len(corpus()),
+                                'op_histogram': hist, 'boundaries_hit': bnd, 'model_variant_flags(guard_q,guard_tb,recheck,flag_late,prune,get_valid)': list(fl),
+                                'implementation_crash_or_hang': sum(1 for l in il if l.startswith(('CRASH', 'HANG')))})
+
+
+def replay(path):
+    d = json.load(open(path)); ck = Check(PID, 'quick')
+    c = d.get('case')
+    if not isinstance(c, str):
+        print('replay holds no concrete case on the implementation:', json.dumps(d, indent=1)[:3000]); return 1
+    mexe, _ = ck.build_modelrun(); iexe, err = ck.build_harness('lg', ['lg.cpp'], flags=['-DNDEBUG', '-ldl'])
+    if not iexe:
+        print('harness does not compile:', err[-800:]); return 1
+    i = ck.run_impl(iexe, [c], per_case_timeout=30)[0]
+    print('case :', c); print('ops  :', parse(c)[2]); print('model:', ck.run_model(mexe, [c])[0]); print('impl :', i); print('monitor:', monitor(c, i))
+    return 1 if monitor(c, i) else 0
 
 
 def dev(n, seed=1):
